@@ -184,69 +184,70 @@ structure CS where
   prevClass : Nat
   pos : List Nat := []   -- reversed
 
+/-- One position of the scoring walk. -/
+def calcStep (cfg : Cfg) (cs norm : Bool) (t p : Text) (withPos : Bool) (st : CS) (idx : Nat) : M CS := do
+  let c0 ← get t idx "calculateScore text"
+  let cls := charClassOf cfg c0
+  let c := foldRune cfg cs norm c0
+  let pc ← get p st.pidx "calculateScore pattern"
+  if c == pc then
+    let bonus0 := bonusFor cfg.sch st.prevClass cls
+    let (bonus, fb) :=
+      if st.consecutive == 0 then (bonus0, bonus0)
+      else
+        let fb := if bonus0 ≥ bonusBoundary ∧ bonus0 > st.firstBonus then bonus0 else st.firstBonus
+        (max16 (max16 bonus0 fb) bonusConsecutive, fb)
+    let add := if st.pidx == 0 then w16 (bonus * bonusFirstCharMultiplier) else bonus
+    pure { st with score := st.score + scoreMatch + add, firstBonus := fb, inGap := false,
+                   consecutive := st.consecutive + 1, pidx := st.pidx + 1,
+                   pos := if withPos then idx :: st.pos else st.pos, prevClass := cls }
+  else
+    pure { st with score := st.score + (if st.inGap then scoreGapExtension else scoreGapStart),
+                   inGap := true, consecutive := 0, firstBonus := 0, prevClass := cls }
+
 def calculateScore (cfg : Cfg) (cs norm : Bool) (t p : Text) (sidx eidx : Nat) (withPos : Bool) :
     M (Int × Option (List Nat)) := do
   let prev0 ← if sidx > 0 then (do let c ← get t (sidx - 1 : Nat) "calculateScore"; pure (charClassOf cfg c))
               else pure cfg.sch.initClass
-  let mut st : CS := { prevClass := prev0 }
-  for k in [0:eidx - sidx] do
-    let idx := sidx + k
-    let c0 ← get t idx "calculateScore text"
-    let cls := charClassOf cfg c0
-    let c := foldRune cfg cs norm c0
-    let pc ← get p st.pidx "calculateScore pattern"
-    if c == pc then
-      let bonus0 := bonusFor cfg.sch st.prevClass cls
-      let (bonus, fb) :=
-        if st.consecutive == 0 then (bonus0, bonus0)
-        else
-          let fb := if bonus0 ≥ bonusBoundary ∧ bonus0 > st.firstBonus then bonus0 else st.firstBonus
-          (max16 (max16 bonus0 fb) bonusConsecutive, fb)
-      let add := if st.pidx == 0 then w16 (bonus * bonusFirstCharMultiplier) else bonus
-      st := { st with score := st.score + scoreMatch + add, firstBonus := fb, inGap := false,
-                      consecutive := st.consecutive + 1, pidx := st.pidx + 1,
-                      pos := if withPos then idx :: st.pos else st.pos, prevClass := cls }
-    else
-      st := { st with score := st.score + (if st.inGap then scoreGapExtension else scoreGapStart),
-                      inGap := true, consecutive := 0, firstBonus := 0, prevClass := cls }
+  let st ← ((List.range (eidx - sidx)).map (sidx + ·)).foldlM (calcStep cfg cs norm t p withPos) { prevClass := prev0 }
   pure (st.score, if withPos then some st.pos.reverse else Option.none)
 
 /-! ### FuzzyMatchV1 -/
+
+/-- The forward scan of FuzzyMatchV1 over the positions `idxs` (in scan order): the number of
+    pattern characters found, the position of the first one, and — as soon as the whole pattern was
+    found — one past the position of the last one. -/
+def v1Forward (cfg : Cfg) (cs norm fwd : Bool) (t p : Text) : List Nat → Nat → Option Nat → M (Nat × Option Nat × Option Nat)
+  | [], pidx, sidx => pure (pidx, sidx, Option.none)
+  | index :: rest, pidx, sidx => do
+    let c0 ← get t (indexAt index t.size fwd) "v1"
+    let pc ← get p (indexAt pidx p.size fwd) "v1 pattern"
+    if foldRune cfg cs norm c0 == pc then
+      let sidx := if sidx.isNone then some index else sidx
+      if pidx + 1 == p.size then pure (pidx + 1, sidx, some (index + 1))
+      else v1Forward cfg cs norm fwd t p rest (pidx + 1) sidx
+    else v1Forward cfg cs norm fwd t p rest pidx sidx
+
+/-- The backward scan: from `e - 1` down, matching the pattern from its end; the position where
+    the first pattern character is found again (`none` if the positions run out first). -/
+def v1Backward (cfg : Cfg) (cs norm fwd : Bool) (t p : Text) : List Nat → Int → M (Option Nat)
+  | [], _ => pure Option.none
+  | index :: rest, bp => do
+    let c0 ← get t (indexAt index t.size fwd) "v1 back"
+    let pc ← get p (indexAt bp.toNat p.size fwd) "v1 back pattern"
+    if foldRune cfg cs norm c0 == pc then
+      if bp - 1 < 0 then pure (some index) else v1Backward cfg cs norm fwd t p rest (bp - 1)
+    else v1Backward cfg cs norm fwd t p rest bp
 
 def fuzzyMatchV1 (cfg : Cfg) (cs norm fwd : Bool) (t : Text) (isBytes : Bool) (p : Text) (withPos : Bool) : M Res := do
   if p.size == 0 then return ⟨0, 0, 0, Option.none⟩
   if (asciiFuzzyIndex t isBytes p cs).isNone then return Res.none
   let n := t.size
-  let m := p.size
-  -- forward scan
-  let mut pidx := 0
-  let mut sidx : Option Nat := Option.none
-  let mut eidx : Option Nat := Option.none
-  for index in [0:n] do
-    let c0 ← get t (indexAt index n fwd) "v1"
-    let c := foldRune cfg cs norm c0
-    let pc ← get p (indexAt pidx m fwd) "v1 pattern"
-    if c == pc then
-      if sidx.isNone then sidx := some index
-      pidx := pidx + 1
-      if pidx == m then
-        eidx := some (index + 1)
-        break
+  let (pidx, sidx, eidx) ← v1Forward cfg cs norm fwd t p (List.range n) 0 Option.none
   match sidx, eidx with
   | some s, some e =>
-    -- backward scan
-    let mut bp : Int := (pidx : Int) - 1
-    let mut s := s
-    for k in [0:e - s] do
-      let index := e - 1 - k
-      let c0 ← get t (indexAt index n fwd) "v1 back"
-      let c := foldRune cfg cs norm c0
-      let pc ← get p (indexAt bp.toNat m fwd) "v1 back pattern"
-      if c == pc then
-        bp := bp - 1
-        if bp < 0 then
-          s := index
-          break
+    let back ← v1Backward cfg cs norm fwd t p ((List.range (e - s)).map (e - 1 - ·)) ((pidx : Int) - 1)
+    let s := back.getD s
     let (s', e') := if fwd then (s, e) else (n - e, n - s)
     let (score, pos) ← calculateScore cfg cs norm t p s' e' withPos
     return ⟨s', e', score, pos⟩
@@ -340,13 +341,19 @@ def foldTL (cfg : Cfg) (cs norm : Bool) (c : Nat) : Nat :=
   let c := if cs then c else toLower cfg c
   if norm then cfg.norm c else c
 
+/-- Compare the pattern with the text at offset `off`, position by position in the order `is`;
+    `ok c pc` decides one position. Stops at the first mismatch. -/
+def cmpAt (ok : Nat → Nat → Bool) (t p : Text) (off : Nat) : List Nat → M Bool
+  | [] => pure true
+  | i :: is => do
+    let c0 ← get t (off + i : Nat) "compare"
+    if ok c0 (p.getD i 0) then cmpAt ok t p off is else pure false
+
 def prefixMatch (cfg : Cfg) (cs norm : Bool) (t p : Text) : M Res := do
   if p.size == 0 then return ⟨0, 0, 0, Option.none⟩
   let trimmedLen := if !cfg.U.isSpace (p.getD 0 0) then leadingWhitespaces cfg t else 0
   if (t.size : Int) - trimmedLen < p.size then return Res.none
-  for index in [0:p.size] do
-    let c0 ← get t (trimmedLen + index : Nat) "prefix"
-    if foldTL cfg cs norm c0 != p.getD index 0 then return Res.none
+  if !(← cmpAt (fun c pc => foldTL cfg cs norm c == pc) t p trimmedLen (List.range p.size)) then return Res.none
   let (score, _) ← calculateScore cfg cs norm t p trimmedLen (trimmedLen + p.size) false
   return ⟨trimmedLen, trimmedLen + p.size, score, Option.none⟩
 
@@ -357,11 +364,14 @@ def suffixMatch (cfg : Cfg) (cs norm : Bool) (t p : Text) : M Res := do
   if p.size == 0 then return ⟨trimmedLen, trimmedLen, 0, Option.none⟩
   if trimmedLen < p.size then return Res.none
   let diff := trimmedLen - p.size
-  for index in [0:p.size] do
-    let c0 ← get t (index + diff : Nat) "suffix"
-    if foldTL cfg cs norm c0 != p.getD index 0 then return Res.none
+  if !(← cmpAt (fun c pc => foldTL cfg cs norm c == pc) t p diff (List.range p.size)) then return Res.none
   let (score, _) ← calculateScore cfg cs norm t p diff trimmedLen false
   return ⟨diff, trimmedLen, score, Option.none⟩
+
+/-- The comparison EqualMatch applies to one character (its two loops differ in whether both sides
+    are normalised). -/
+def equalOk (cfg : Cfg) (cs norm : Bool) (c pc : Nat) : Bool :=
+  if norm then cfg.norm pc == cfg.norm (if cs then c else toLower cfg c) else pc == (if cs then c else toLower cfg c)
 
 def equalMatch (cfg : Cfg) (cs norm : Bool) (t p : Text) : M Res := do
   let m := p.size
@@ -369,21 +379,7 @@ def equalMatch (cfg : Cfg) (cs norm : Bool) (t p : Text) : M Res := do
   let trimmedLen := if !cfg.U.isSpace (p.getD 0 0) then leadingWhitespaces cfg t else 0
   let trimmedEndLen := if !cfg.U.isSpace (p.getD (m - 1) 0) then trailingWhitespaces cfg t else 0
   if (t.size : Int) - trimmedLen - trimmedEndLen != m then return Res.none
-  let mut isMatch := true
-  if norm then
-    for idx in [0:m] do
-      let c0 ← get t (trimmedLen + idx : Nat) "equal"
-      let c := if cs then c0 else toLower cfg c0
-      if cfg.norm (p.getD idx 0) != cfg.norm c then
-        isMatch := false
-        break
-  else
-    for idx in [0:m] do
-      let c0 ← get t (trimmedLen + idx : Nat) "equal"
-      let c := if cs then c0 else toLower cfg c0
-      if p.getD idx 0 != c then
-        isMatch := false
-        break
+  let isMatch ← cmpAt (equalOk cfg cs norm) t p trimmedLen (List.range m)
   if isMatch then
     return ⟨trimmedLen, trimmedLen + m,
       (scoreMatch + cfg.sch.bWhite) * m + (bonusFirstCharMultiplier - 1) * cfg.sch.bWhite, Option.none⟩
